@@ -76,11 +76,12 @@ func caseBlocks(sel *ssa.Select) (cases map[int]*ssa.BasicBlock, deflt *ssa.Basi
 }
 
 // chanRole classifies where a channel value comes from.
-//   "field T.F"      load of a struct field
-//   "done T.F"       result of (*deadline.Deadline).Done() on the value of field F
-//   "ctx.Done"       result of Done() on a context.Context
-//   "timer.C T.F"    field C of a *time.Timer held in field F
-//   "time.After"     result of time.After
+//
+//	"field T.F"      load of a struct field
+//	"done T.F"       result of (*deadline.Deadline).Done() on the value of field F
+//	"ctx.Done"       result of Done() on a context.Context
+//	"timer.C T.F"    field C of a *time.Timer held in field F
+//	"time.After"     result of time.After
 func chanRole(v ssa.Value) string {
 	v = strip(v)
 	if fr, ok := asFieldLoad(v); ok {
